@@ -202,9 +202,20 @@ def exact(kind, extra, v):
     if kind == "datetime":
         _, t = extra
         tz = getattr(t, "tz", None)
-        if tz is None and hasattr(getattr(t, "type", None), "pyarrow_dtype"):
-            tz = t.type.pyarrow_dtype.tz
+        nt = getattr(t, "type", None)
+        unit = getattr(t, "unit", None)
+        if tz is None and hasattr(nt, "pyarrow_dtype"):
+            tz = nt.pyarrow_dtype.tz
+            unit = nt.pyarrow_dtype.unit
+        if hasattr(nt, "time_zone"):          # polars
+            tz, unit = nt.time_zone, nt.time_unit
         unit_ok = True
+        if isinstance(v, (TS, datetime.datetime, np.datetime64)) and unit in ("ms", "us", "s"):
+            per = {"s": 10**9, "ms": 10**6, "us": 10**3}[unit]
+            try:
+                unit_ok = TS(v).value % per == 0
+            except Exception:
+                unit_ok = False
         if isinstance(v, (TS, datetime.datetime, np.datetime64)) and not isinstance(v, str):
             ts = TS(v)
             if tz is None and ts.tzinfo is None:
@@ -220,7 +231,12 @@ def exact(kind, extra, v):
         return False, None
     if kind == "timedelta":
         if isinstance(v, (TD, datetime.timedelta, np.timedelta64)):
-            return True, TD(v)
+            _, t = extra
+            nt = getattr(t, "type", None)
+            unit = getattr(nt, "time_unit", None) or getattr(
+                getattr(nt, "pyarrow_dtype", None), "unit", None)
+            per = {"s": 10**9, "ms": 10**6, "us": 10**3}.get(unit, 1)
+            return TD(v).value % per == 0, TD(v)
         return False, None
     if kind == "category":
         t = extra
